@@ -7,11 +7,18 @@ import wv
 def main():
     os.makedirs(wv.CACHE, exist_ok=True)
     os.makedirs(wv.RUN, exist_ok=True)
-    mods = ["Kat"]
+    mods = ["Kat", "MDProofsLink"]
     bad = 0
     for m in mods:
         r = wv.tlc(m, workers=1, timeout=600)
         if r["rc"] != 0 or "No error has been found" not in r["out"]:
             print(r["out"][-3000:]); print("ERROR setup: %s failed" % m); bad += 1
+    for pm in ("ChunkingProofs", "MDProofs"):
+        try:
+            n, ok = wv.tlapm(pm)
+            if n != ok:
+                print("ERROR setup: TLAPS proved only %d of %d obligations of %s" % (ok, n, pm)); bad += 1
+        except wv.Infra as e:
+            print("ERROR setup: %s" % str(e)[:1500]); bad += 1
     print("setup: %s" % ("ok" if not bad else "FAILED"))
     return 2 if bad else 0
